@@ -97,6 +97,8 @@ class AbstractExcelInPython(ABC):
 
     def _compare(self, operator: str, left_operand: str | int | float | datetime.date | datetime.datetime,
                           right_operand: str | int | float | datetime.date | datetime.datetime) -> bool:
+        if type(left_operand) in (int, float) and type(right_operand) in (int, float):
+            return self._by_operator(operator, left_operand, right_operand)
         try:
             return self._by_operator(operator, int(left_operand), int(right_operand))
         except (ValueError, TypeError):
